@@ -562,7 +562,11 @@ func (r *Runner) runBFS() {
 					r.outcomes[Hash64(res.Outcome)] = struct{}{}
 				}
 				for _, f := range res.Failures {
-					r.addFail("bfs", f.Sig, BFSSpec(h), f.Detail, r.bfsTransitions, 1)
+					fspec := BFSSpec(h)
+					if f.Spec != "" {
+						fspec = f.Spec
+					}
+					r.addFail("bfs", f.Sig, fspec, f.Detail, r.bfsTransitions, 1)
 				}
 				if res.Key == "" {
 					continue
@@ -868,6 +872,11 @@ func (r *Runner) writeEvidence(violations int, known, unconfirmed, flaky []strin
 		cov["states"] = r.distinct
 		cov["transitions"] = r.executed
 		cov["traces_validated_against_impl"] = r.executed
+	}
+	if p.Coverage != nil {
+		for k, v := range p.Coverage(r.Tier, r.counters) {
+			cov[k] = v
+		}
 	}
 	if 0 < total {
 		cov["ref_mutants_killed"] = fmt.Sprintf("%d/%d", killed, total)
